@@ -79,3 +79,117 @@ pub fn run_c06(tier: Tier, replay_path: Option<String>) -> i32 {
     report.set("plans", json!(summary));
     report.finish()
 }
+
+fn c19_owns(sig: &str) -> bool {
+    ["extra-files-in-directory", "sidecar", "panic:sidecar", "failed-call-changed-state", "invalid-call-accepted"].iter().any(|p| sig.starts_with(p))
+}
+
+pub fn run_c19(tier: Tier, replay_path: Option<String>) -> i32 {
+    if let Some(p) = replay_path {
+        return replay(&p);
+    }
+    let mut report = Report::new(
+        "C19",
+        tier,
+        "exploration",
+        "every op sequence up to the depth bound over the C01 alphabet plus failing calls {update/delete of a missing id, embedding of the wrong dimension, stale ticket, put over a zero-headroom capacity ticket} plus vacuum and doctor, with a directory listing after every call (must be exactly the one .mv2); plus all 8 forbidden sidecar names x {create, open, open_read_only, doctor} (must return AuxiliaryFileDetected and leave directory and file unchanged); non-trivial = history not redundant and >= 1 frame, or a sidecar case; distinct = distinct histories",
+    );
+    let alphabet = s(&["put:t", "put:T", "put:e", "upd:0:new", "del:0", "commit", "reopen", "abandon", "vacuum", "doctor", "bad:upd", "bad:del", "bad:dim", "bad:tick", "tick:+:0", "putn:10"]);
+    let mk = |label: &str, alphabet: &Vec<String>, depth: usize, prefix: &[&str]| HistPlan { label: label.into(), prop: "C19", alphabet: alphabet.clone(), max_depth: depth, prefix: s(prefix), instant: false, worker_kind: "hist", extra: json!({}), keep: Some(c19_owns) };
+    let plans = match tier {
+        Tier::Quick => vec![mk("fresh", &alphabet, 2, &[]), mk("after-commit", &alphabet, 1, &["put:t", "put:e", "commit"])],
+        Tier::Thorough => vec![mk("fresh", &alphabet, 3, &[]), mk("after-commit", &alphabet, 3, &["put:t", "put:e", "commit"]), mk("instant", &s(&["put:t", "put:T", "commit", "abandon", "bad:upd", "doctor"]), 3, &[])],
+    };
+    let mut summary = Vec::new();
+    for p in &plans {
+        let st = explore(&mut report, p);
+        summary.push(json!({"plan": p.label, "depth": p.max_depth, "cases": st.cases, "redundant": st.redundant, "violating": st.violating}));
+    }
+    // sidecars
+    let cfg = PoolCfg { kind: "hist".into(), timeout: std::time::Duration::from_secs(60), workers: 8, envs: vec![] };
+    let mut cases = Vec::new();
+    for side in ["-wal", "-shm", "-lock", "-journal", ".wal", ".shm", ".lock", ".journal"] {
+        for entry in ["create", "open", "open_ro", "doctor"] {
+            cases.push(json!({"prop": "C19", "sidecar": side, "entry": entry, "worker": "hist"}));
+        }
+    }
+    let mut results = Vec::new();
+    run_pool(&cfg, cases, |_, c, o| results.push((c.clone(), o)));
+    for (c, o) in results {
+        let key = format!("sidecar|{}|{}", c["sidecar"].as_str().unwrap_or(""), c["entry"].as_str().unwrap_or(""));
+        report.eval(Some(h64(&key)));
+        match o {
+            WorkerOutcome::Ok(v) => {
+                for o in v["outcomes"].as_array().cloned().unwrap_or_default() {
+                    report.outcome(o.as_str().unwrap_or(""));
+                }
+                for vi in v["viol"].as_array().cloned().unwrap_or_default() {
+                    report.violation(&signature_of(&vi), &key, &format!("{key}: {}", vi["detail"].as_str().unwrap_or("")), c.clone());
+                }
+            }
+            other => report.violation("process-aborted", &key, &format!("{key}: {other:?}"), c.clone()),
+        }
+    }
+    report.sample(json!({"sidecar": "-wal", "entry": "open_ro"}));
+    report.set("plans", json!(summary));
+    report.finish()
+}
+
+fn c24_owns(sig: &str) -> bool {
+    sig.starts_with("capacity:")
+}
+
+pub fn run_c24(tier: Tier, replay_path: Option<String>) -> i32 {
+    if let Some(p) = replay_path {
+        return replay(&p);
+    }
+    let mut report = Report::new(
+        "C24",
+        tier,
+        "exploration",
+        "for every headroom c in {0,1,31,32,33,64,100} (quick: {32,64}): a ticket granting capacity = current payload end + c, then every sequence up to the depth bound of puts of incompressible binaries of 1/32/33/64 bytes, commit and close+open; oracle: a put is accepted iff committed payload end + acknowledged pending bytes + size <= capacity, a rejected put is CapacityExceeded, and after every commit/open no payload ends beyond the capacity; also from a state with committed data; non-trivial = history with >= 1 accepted put; distinct = distinct histories",
+    );
+    let heads: Vec<u64> = tier.pick(vec![32, 64], vec![0, 1, 31, 32, 33, 64, 100]);
+    let alphabet = s(&["putn:1", "putn:32", "putn:33", "putn:64", "commit", "reopen"]);
+    let depth = tier.pick(3, 4);
+    let mut summary = Vec::new();
+    for c in heads {
+        for (label, prefix) in [("fresh", vec![format!("tick:+:{c}")]), ("after-commit", vec!["putn:40".to_string(), "commit".to_string(), format!("tick:+:{c}")])] {
+            let depth = if label == "after-commit" && tier == Tier::Quick { 2 } else { depth };
+            let plan = HistPlan { label: format!("{label}-headroom-{c}"), prop: "C24", alphabet: alphabet.clone(), max_depth: depth, prefix, instant: false, worker_kind: "hist", extra: json!({}), keep: Some(c24_owns) };
+            let st = explore(&mut report, &plan);
+            summary.push(json!({"plan": plan.label, "depth": depth, "cases": st.cases, "violating": st.violating}));
+        }
+    }
+    report.set("plans", json!(summary));
+    report.finish()
+}
+
+fn c26_owns(sig: &str) -> bool {
+    sig.starts_with("card-") || sig.starts_with("enrichment-")
+}
+
+pub fn run_c26(tier: Tier, replay_path: Option<String>) -> i32 {
+    if let Some(p) = replay_path {
+        return replay(&p);
+    }
+    let mut report = Report::new(
+        "C26",
+        tier,
+        "exploration",
+        "every op sequence up to the depth bound over {put s (a sentence the rules engine extracts a card from), put S (same, instant index + enable_embedding: fills the enrichment queue), put T (chunked), put t, del(0), upd(0,new), commit, reopen, abandon}; after every commit/open and at the end: every card names an existing frame whose uri is the card's source uri and whose text contains the card value, every enrichment record and every enrichment-queue entry names the frame of the put that created it; commits in between make WAL sequence numbers and frame ids diverge; non-trivial = history with >= 1 card-producing put; distinct = distinct histories",
+    );
+    let alphabet = s(&["put:s", "put:S", "put:T", "put:t", "del:0", "upd:0:new", "commit", "reopen", "abandon"]);
+    let mk = |label: &str, depth: usize, prefix: &[&str]| HistPlan { label: label.into(), prop: "C26", alphabet: alphabet.clone(), max_depth: depth, prefix: s(prefix), instant: false, worker_kind: "hist", extra: json!({}), keep: Some(c26_owns) };
+    let plans = match tier {
+        Tier::Quick => vec![mk("fresh", 2, &[]), mk("after-commit", 2, &["put:s", "commit"]), mk("after-chunked", 1, &["put:T", "put:s", "commit", "del:0", "commit"])],
+        Tier::Thorough => vec![mk("fresh", 4, &[]), mk("after-commit", 3, &["put:s", "commit"]), mk("after-chunked", 3, &["put:T", "put:s", "commit", "del:0", "commit"])],
+    };
+    let mut summary = Vec::new();
+    for p in &plans {
+        let st = explore(&mut report, p);
+        summary.push(json!({"plan": p.label, "depth": p.max_depth, "cases": st.cases, "redundant": st.redundant, "violating": st.violating}));
+    }
+    report.set("plans", json!(summary));
+    report.finish()
+}
